@@ -465,7 +465,20 @@ func judge(d *lib.Driver, in []byte, idx int, runs []ran, model map[string]model
 		mp, mt := model[p.mkey], model[t.mkey]
 		desc["model_parser"] = mp.raw
 		desc["model_tokenizer"] = mt.raw
+		// per case: the Lean machine carries the named defects (the tokenizer's missing cases, the parser's
+		// undelivered values, the pinned fast paths); a difference is explained only if BOTH outcomes are exactly
+		// what the machine predicts for this input — the parser's documents or error, the tokenizer's callbacks or
+		// error, and the documents rebuilt from the predicted callbacks (when they form a well-formed stream)
 		tied := tie(mp, p.o, p.spec) == "" && tie(mt, t.o, t.spec) == ""
+		if tied && mt.ok && t.o.OK {
+			if built, good := rebuildEvents(mt.body); good {
+				desc["predicted_built"] = built
+				if built != t.o.Built {
+					tied = false
+					desc["prediction_failed"] = "the documents alt.Builder builds from the callbacks are not the ones the predicted callbacks give"
+				}
+			}
+		}
 		cls := "frontends:" + md
 		done := false
 		if tied {
